@@ -183,6 +183,10 @@ def genNaryKeys (N : Nat) (keys : List Nat) (root : Option Nat) : Outcome Nodes 
   | none => if keys = [] then .panic else genNary N (some 0) keys.length
   | some k => genNary N (search keys k) keys.length
 
+/-- `ro.List[i], ro.List[j] = ro.List[j], ro.List[i]` — a roster's list changed in place -/
+def swapAt (keys : List Nat) (i j : Nat) : List Nat :=
+  (keys.set i (keys.getD j 0)).set j (keys.getD i 0)
+
 /-- the node identifiers of a tree: `NewTreeNode` (tree.go:906-915) derives a node's id from its
 server's public key and from nothing else (injectively: `C13.c13_name_preimage_injective`) -/
 def nodeIds (keys : List Nat) (t : Nodes) : List Nat := t.map fun x => keys.getD x.1 0
@@ -382,6 +386,19 @@ def step (s : State) (toks : List String) : State × String :=
     match hosts.toNat?, bf.toNat? with
     | some _, some _ => (s, "err")
     | _, _ => (s, "bad-op")
+  -- `narymut <N> <i> <j> <root key | nil> <keys>`: the roster is searched once, then its list is changed in
+  -- place (entries i and j swapped: same length, same members), then `GenerateNaryTreeWithRoot`: the root is
+  -- looked up in the list as it is *now*
+  | ["narymut", bn, i, j, r, keys] =>
+    match bn.toNat?, i.toNat?, j.toNat?, Util.natList keys with
+    | some bn, some i, some j, some keys =>
+      if i ≥ keys.length ∨ j ≥ keys.length then (s, "bad-op") else
+      let keys' := swapAt keys i j
+      if r = "nil" then (s, showOutcome (genNaryKeys bn keys' none)) else
+      match r.toNat? with
+      | some k => (s, showOutcome (genNaryKeys bn keys' (some k)))
+      | none => (s, "bad-op")
+    | _, _, _, _ => (s, "bad-op")
   -- `npred <n> <N> <root> <M>` / `bpred <N> <nodes> <hosts> <M>`: onet's own predicates on the tree the
   -- generator returns: Size, number of IsLeaf nodes, IsNary(M), IsBinary, UsesList, children of the root
   | ["npred", n, bn, r, m] =>
